@@ -389,11 +389,11 @@ class C06(DecProp):
     rule = ("H lines: header descriptions (Sorenson: all 32 versions, all 256 temporal references, all 8 size codes x edge sizes x 4 picture types, all quantizers x deblocking flag; "
             "baseline: all 32 PTYPE low-bit patterns x all source formats, all temporal references, wrong marker bits; PLUSPTYPE: all 2^10 OPPTYPE mode patterns, custom picture format "
             "width x height grid (thorough: all 512 x 289), all PAR codes incl. EPAR, custom clock + ETR, UUI, SSS, ELNUM/RLNUM under the scalability option, RPSMF, TRPI/TRP, BCI, CPM/PSBI, "
-            "MPPTYPE, PB fields, PEI bytes, UFEP=000 after synthetic previous headers, every fixed marker wrong) written by the specification encoder, followed by random bits; parsed "
+            "MPPTYPE, PB fields, PEI bytes, UFEP=000 after parsed and after synthetic previous headers, every fixed marker wrong, BCI=1) written by the specification encoder, followed by random bits; parsed "
             "by parser::decode_picture; the header (all public fields) and the number of bits consumed are compared with the model and with the specification's expected header.  "
             "Non-trivial: every accepted header; distinct by text.")
     assumptions = ["baseline (no PLUSPTYPE) headers are exercised without the scalability option: whether ELNUM accompanies them is not pinned down by the statement",
-                   "UFEP=000 headers can only follow a previous header without a format (the parser demands RPRP otherwise); such previous headers are synthesised through the hooks"]
+                   "UFEP=000 headers follow (a) real previous headers given in hex and parsed first (all OPPTYPE mode patterns), (b) synthetic previous headers without a format built through the public Picture struct (arbitrary option sets, incl. ones no parse produces)"]
 
     def cases(self, tier, rng):
         seed = rng.randint(1, 10 ** 6)
